@@ -113,6 +113,11 @@ type Store struct {
 	D       *DAG
 	Has     []bool
 	OnRead  func(i int)
+	// OnDecode/OnWrite/OnCommit: called with the block index before the block
+	// is decoded / when a write is opened (index -1) / when it is committed
+	OnDecode func(i int)
+	OnWrite  func()
+	OnCommit func(i int)
 	Reads   []int
 	Writes  []int
 	Commits []int
@@ -137,10 +142,16 @@ func (s *Store) LinkSystem() ipld.LinkSystem {
 				return err
 			}
 			if len(b) == 0 && s.EmptyBlock >= 0 {
+				if s.OnDecode != nil {
+					s.OnDecode(s.EmptyBlock)
+				}
 				return na.AssignNode(s.D.Nodes[s.EmptyBlock])
 			}
 			if len(b) != 1 || int(b[0]) >= len(s.D.Nodes) {
 				return errors.New("table decoder: unknown block")
+			}
+			if s.OnDecode != nil {
+				s.OnDecode(int(b[0]))
 			}
 			return na.AssignNode(s.D.Nodes[b[0]])
 		}, nil
@@ -161,8 +172,14 @@ func (s *Store) LinkSystem() ipld.LinkSystem {
 	}
 	ls.StorageWriteOpener = func(_ linking.LinkContext) (io.Writer, linking.BlockWriteCommitter, error) {
 		var buf bytes.Buffer
+		if s.OnWrite != nil {
+			s.OnWrite()
+		}
 		return &buf, func(l ipld.Link) error {
 			i := LinkIndex(l)
+			if s.OnCommit != nil {
+				s.OnCommit(i)
+			}
 			s.Commits = append(s.Commits, i)
 			b := buf.Bytes()
 			if len(b) == 1 {
